@@ -151,6 +151,9 @@ def c17_r3(ctx, f):
                             continue
                         n += 1
                         ok, how = _len_invariant(fn, rv["ops"][j], pt, fld, want_len[fld], b["id"])
+                        if ok is None:
+                            ctx.abstain(rid, "SvgOptions.%s <- %s" % (fld, how), fn.where(pt))
+                            continue
                         ctx.check(rid, ok, "%s/%s" % (fn.path, fld), fn.where(pt), fn.path, "SvgOptions.%s" % fld,
                                   "a value of unchecked length is stored in this option: the native conversion/indexing of it panics later",
                                   expected="length %s" % (want_len[fld],), found=how,
@@ -161,6 +164,9 @@ def c17_r3(ctx, f):
                         if isinstance(e, dict) and e.get("name") in want_len and _base_adt(fn, st["p"]) == OPTS:
                             n += 1
                             ok, how = _len_invariant(fn, st["rv"].get("op"), pt, e["name"], want_len[e["name"]], b["id"])
+                            if ok is None:
+                                ctx.abstain(rid, "SvgOptions.%s <- %s" % (e["name"], how), fn.where(pt))
+                                continue
                             ctx.check(rid, ok, "%s/store/%s" % (fn.path, e["name"]), fn.where(pt), fn.path, "SvgOptions.%s" % e["name"],
                                       "a value of unchecked length is stored in this option", found=how)
     ctx.floor(rid, "stores into length-constrained option fields", n, 50)
@@ -203,6 +209,9 @@ def _len_invariant(fn, op, pt, fld, want, block):
         if any(op_ == "Eq" and k in wants for op_, k in facts):
             hows.append("length-checked value (%s)" % facts)
             continue
+        if o.kind == "call" and not (o.callee() or "std::").startswith(("std::", "core::", "alloc::", "<std::", "<core::", "<alloc::")):
+            # produced by a helper of the crate: its length facts live in the helper (decided by C17.R6 when that evaluates)
+            return None, "%s (helper of the crate: not followed)" % o.describe(fn)
         return False, "%s with length facts %s" % (o.describe(fn), facts)
     return bool(hows), "; ".join(hows)
 
@@ -311,6 +320,11 @@ def c17_r4(ctx, f):
         if nm.startswith(pre):
             calls.setdefault(nm[len(pre):], []).append(c)
     ctx.analysed(s, sum(len(v) for v in calls.values()))
+    if not calls:
+        # no setter is called here at all: the forwarding lives in a helper this rule does not follow (C17.R6 evaluates it)
+        ctx.abstain(rid, "qr_svg calls no builder setter itself: forwarding moved out of the entry point", where_fn(s))
+        _failure_maps_to_empty(ctx, rid, f, s, "std::string::String::new")
+        return
     for m, want in FORWARD.items():
         cl = calls.get(m, [])
         ok = len(cl) == 1
@@ -386,9 +400,45 @@ def _failure_maps_to_empty(ctx, rid, f, fn, ctor):
         if ok:
             src = fn.origins(m[0].info.call["args"][0], m[0].point)
             ok = len(src) == 1 and src[0].kind == "call" and src[0].callee() == "qr::QRCode::new"
+    if not ok:
+        ok = _failure_match_form(fn, ro, ctor)
     ctx.check(rid, ok, fn.path + "/failure-empty", where_fn(fn), fn.path, "return value",
               "the result is not `built symbol mapped to output, else the empty value`", found=[o.describe(fn) for o in ro],
               sample="QRCode::new(..).map(render).unwrap_or(empty)")
+
+
+def _failure_match_form(fn, ro, ctor):
+    """`match QRCode::new(..) { Ok(q) => render(q), Err(_) => empty }`: every returned value is either the empty constructor on the
+    Err edge or a call made on the Ok edge of a discriminant test of the QRCode::new result"""
+    tests = []
+    for b in fn.blocks:
+        t = b["term"]
+        if t["k"] != "switch" or b["cleanup"]:
+            continue
+        ds = [st for st in b["stmts"] if st["k"] == "assign" and st["rv"]["k"] == "discr" and st["p"]["l"] == t["op"].get("p", {}).get("l")]
+        if not ds:
+            continue
+        src = fn.origins({"k": "copy", "p": ds[-1]["rv"]["p"]}, (b["id"], 0))
+        if len(src) == 1 and src[0].kind == "call" and src[0].callee() == "qr::QRCode::new" and not src[0].proj:
+            arms = dict((v, tgt) for v, tgt in t["arms"])
+            if 0 in arms and (1 in arms or t.get("otherwise") is not None):
+                tests.append((b["id"], arms[0], arms.get(1, t.get("otherwise"))))
+    if len(tests) != 1 or not ro:
+        return False
+    sb, okb, errb = tests[0]
+    empties = 0
+    for o in ro:
+        if o.kind != "call" or o.proj:
+            return False
+        blk = o.point[0]
+        if o.callee() == ctor:
+            if not (blk == errb or fn.edge_dominates((sb, errb), blk)):
+                return False
+            empties += 1
+        else:
+            if not (blk == okb or fn.edge_dominates((sb, okb), blk)) or not o.info.call.get("local"):
+                return False
+    return empties >= 1
 
 
 def c17_r5(ctx, f):
